@@ -18,7 +18,75 @@ def cert_chain(name):
 
     certs = load_pem_x509_certificates(_read(name + ".pem"))
     key = load_pem_private_key(_read(name + ".key"))
-    return certs[0], list(certs[1:]), key
+    return certs[0], list(certs[1:]), _deterministic(key)
+
+
+def _deterministic(key):
+    """RSA-PSS signatures draw their salt from OpenSSL's generator, which no seam controls: the bytes of a
+    CertificateVerify made with an RSA key would differ from run to run. RSA keys are wrapped so that PSS uses a
+    salt derived from the message (the signature stays a valid PSS signature for every verifier)."""
+    from cryptography.hazmat.primitives import hashes
+    from cryptography.hazmat.primitives.asymmetric import padding, rsa
+
+    if not isinstance(key, rsa.RSAPrivateKey):
+        return key
+
+    class DetRSAKey(rsa.RSAPrivateKey):
+        def __init__(self, real):
+            self._real = real
+            n = real.private_numbers()
+            self._d, self._n = n.d, n.public_numbers.n
+
+        key_size = property(lambda self: self._real.key_size)
+
+        def public_key(self):
+            return self._real.public_key()
+
+        def private_numbers(self):
+            return self._real.private_numbers()
+
+        def private_bytes(self, *a, **kw):
+            return self._real.private_bytes(*a, **kw)
+
+        def decrypt(self, *a, **kw):
+            return self._real.decrypt(*a, **kw)
+
+        def __copy__(self):
+            return self
+
+        def __deepcopy__(self, memo):
+            return self
+
+        def sign(self, data, pad, algorithm):
+            if not isinstance(pad, padding.PSS):
+                return self._real.sign(data, pad, algorithm)  # PKCS#1 v1.5 is deterministic already
+            import hashlib
+
+            hname = algorithm.name
+            hlen = algorithm.digest_size
+
+            def H(b):
+                return hashlib.new(hname, b).digest()
+
+            slen = pad._salt_length if isinstance(pad._salt_length, int) else hlen
+            mhash = H(data)
+            salt = hashlib.sha512(b"verif-pss-salt" + mhash).digest()[:slen]
+            embits = self._n.bit_length() - 1
+            emlen = (embits + 7) // 8
+            h = H(bytes(8) + mhash + salt)
+            db = bytes(emlen - slen - hlen - 2) + b"\x01" + salt
+            mask = b""
+            counter = 0
+            while len(mask) < len(db):  # MGF1 with the same hash
+                mask += H(h + counter.to_bytes(4, "big"))
+                counter += 1
+            masked = bytearray(x ^ y for x, y in zip(db, mask))
+            masked[0] &= 0xFF >> (8 * emlen - embits)
+            em = bytes(masked) + h + b"\xbc"
+            sig = pow(int.from_bytes(em, "big"), self._d, self._n)
+            return sig.to_bytes((self._n.bit_length() + 7) // 8, "big")
+
+    return DetRSAKey(key)
 
 
 def ca_pem():
